@@ -502,6 +502,19 @@ def check_api_gates(eng, ctx):
                not extra, '; '.join(how) or 'escape set %s: the connection '
                'machine, the lookup, the stream machine' % sorted(esc),
                node=fi.node)
+    # reserving a stream opens nothing: neither the concurrency limit nor a
+    # window stands in the way of a push (RFC 7540 5.1.2, 8.2.2)
+    for name in ('push_stream', '_receive_push_promise_frame'):
+        fi = eng.m.func('connection.H2Connection.' + name)
+        esc = eng.R.of(fi.qual)
+        extra = sorted(set(esc) & {'TooManyStreamsError', 'FlowControlError'})
+        ctx.ob('FSM.api-gates', fi.qual, 'a push is not subject to the '
+               'stream limit', not extra, '; '.join(
+                   '%s from %s' % (x, '; '.join(sorted(
+                       '%s %s' % (o[0].split('.')[-1], o[2])
+                       for o in getattr(esc[x], 'origins', ())))[:160])
+                   for x in extra) or 'escape set %s' % sorted(esc),
+               node=fi.node)
 
 
 def run(ctx, eng):
